@@ -161,6 +161,20 @@ PROPS.update({
 })
 
 
+PROPS["C19"] = {
+    "engine_name": "zoo",
+    "builds": [("zoo", ())],
+    "workloads": [{"bin": "zoo", "engine": "zoo", "profile": "zoo", "cases": {"quick": 1, "thorough": 1}, "shards": 1,
+                   "timeout_s": 600, "sample_keys": ["zoo"]}],
+    "rule": "programs = a fixed zoo of 36 attribute uses on 30 functions (sync/async, ()/Result, typed args, &[T], #[step] and `step`-named argument, literal / regex / expr, custom Parameter with two groups and with default name, 2 and 3 attributes on one fn, two Worlds) compiled by the current /repo/codegen; inputs = a corpus of ~130 step texts (positives, prefix / suffix / case near-misses of literals, regex metacharacters in literals, int/float/word/string/anonymous parameters, optional text, alternation, parse failures, returned Err) x 3 keywords x 2 Worlds; World::collection().find must select what a hand-written matcher table selects, and invoking the selected function must record the expected parsed arguments or fail; non-trivial = the text matches >=1 definition or is a near-miss of a literal; distinct by (world, keyword, text)",
+    "floor": {"quick": 50, "thorough": 50},
+    "assumptions": ["decides the property for this zoo's signatures only (programs are sampled, not enumerated); macro compile errors are not observable at run time",
+                    "the expected regex of each Cucumber Expression in the table is this author's translation of the Cucumber Expressions specification",
+                    "the tier does not matter: the zoo and the corpus are fixed, the run is exhaustive over them"],
+    "technique": "runtime monitoring: reference-table oracle over the compiled macro zoo",
+}
+
+
 def _c14_post(merged_all, tier, seed, work):
     import os
     import c14
@@ -187,6 +201,8 @@ PROPS["C14"] = {
 NOT_APPLICABLE = {}
 
 ENGINES = [
+    {"name": "zoo", "path": "harness/zoo", "serves_properties": ["C19"],
+     "kind_free_text": "binary with annotated step functions compiled by /repo/codegen + hand-written matcher/argument table + text corpus"},
     {"name": "vpure", "path": "harness/vh (src/pure.rs)", "serves_properties": ["C15", "C16", "C17", "C18"],
      "kind_free_text": "reference-model monitors: the real function is called on seeded inputs and compared with a small oracle written from the statement"},
     {"name": "vstream", "path": "harness/vh (src/synth.rs, src/recw.rs, src/oracles_stream.rs)",
